@@ -239,6 +239,11 @@ def run(ctx) -> None:
     # "plus the kid of a key picked from a key set": the key-selection rule of C14 (all routes into a set record / honour the kid)
     from .c14 import r14_2
     ctx.guard(r14_2, "R09.8")
+    from .c14 import r14_3
+    ctx.guard_as("R09.8", r14_3)  # a key picked from a set is of the type the algorithm requires, for every registered algorithm
+    # "over the JWE transport": claims of exactly the decompression limit still decode (completion gate of the bounded inflater)
+    from .c17 import r17_2_5
+    ctx.guard_as("R09.12", r17_2_5)
     ctx.guard(r09_1)
     ctx.guard(r09_2_3)
     ctx.guard(r09_4_5)
